@@ -142,6 +142,16 @@ def render(tab) -> str:
         "",
         "def tables : Tables := ⟨grammar, kindCat, visits, reads, generic⟩",
         "",
+        "inductive Stage where | builder | checker | compiler | parsing | other deriving DecidableEq, Repr",
+        "inductive ListRead where | whole | index | test deriving DecidableEq, Repr",
+        "",
+        "/-- how each stage (by source file) consumes the list-typed grammar fields it looks at outside rejections:",
+        "    `whole` (iterated / unpacked / handed on), `index` (one element by constant subscript), `test` (truth value / length) -/",
+        "def listReads : List (Stage × Kind × Field × ListRead) := [",
+        ",\n".join(f"  (.{st if st in ('builder', 'checker', 'compiler', 'parsing') else 'other'}, .{k}, .f_{f}, .{h})"
+                    for st, k, f, h in tab.get("list_reads", []) if k in kcat),
+        "]",
+        "",
         "inductive SkipAtom where | tmpVar | isinstance | other | unanalysable deriving DecidableEq, Repr",
         "inductive RecordHow where | always | never | guarded (skipWhen : List SkipAtom) deriving DecidableEq, Repr",
         "",
@@ -311,6 +321,19 @@ PROBES = [
     ("Subscript", "value", "t = (1, 2)\nu = (3, 4)\nreturn t[0]", "t = (1, 2)\nu = (3, 4)\nreturn u[0]"),
     ("Tuple", "elts", "t = (1, x)\nreturn t[0]", "t = (1, x, 2)\nreturn t[0]"),
     ("Name", "id", "y = 1\nreturn x", "y = 1\nreturn y"),
+    # `ifs` lists of length >= 2 on one generator, several generators (every guard must reach the lowered program)
+    ("comprehension", "ifs", "d = [i for i in range(5) if i > 1 if i < 4]\nreturn x", "d = [i for i in range(5) if i > 1]\nreturn x"),
+    ("comprehension", "ifs", "d = [i for i in range(5) if i > 1 if g0(i) < 4]\nreturn x", "d = [i for i in range(5) if i > 1]\nreturn x"),
+    ("comprehension", "ifs", "d = [i for i in range(5) if i > 1 if i < 4 if i != 3]\nreturn x", "d = [i for i in range(5) if i > 1 if i < 4]\nreturn x"),
+    ("comprehension", "ifs", "d = [i for i in range(5) if i > 1 if i < 4]\nreturn x", "d = [i for i in range(5) if i > 1 if i < 3]\nreturn x"),
+    ("comprehension", "ifs", "d = [i for i in range(5) if i > 1 if i < 4]\nreturn x", "d = [i for i in range(5) if i > 2 if i < 4]\nreturn x"),
+    ("comprehension", "ifs", "d = [i + j for i in range(3) if i > 0 for j in range(3) if j > 0 if j < 2]\nreturn x", "d = [i + j for i in range(3) if i > 0 for j in range(3) if j > 0]\nreturn x"),
+    ("comprehension", "ifs", "d = [i + j for i in range(3) if i > 0 if i < 2 for j in range(3) if j > 0]\nreturn x", "d = [i + j for i in range(3) if i > 0 for j in range(3) if j > 0]\nreturn x"),
+    ("comprehension", "ifs", "d = [i + j for i in range(3) for j in range(3) if j > 0 if i < j]\nreturn x", "d = [i + j for i in range(3) for j in range(3) if j > 0]\nreturn x"),
+    ("comprehension", "ifs", "d = [i + j for i in range(3) if i > 0 for j in range(3)]\nreturn x", "d = [i + j for i in range(3) for j in range(3)]\nreturn x"),
+    ("comprehension", "ifs", "d = [[j for j in range(i) if j > 0 if j < 3] for i in range(4) if i > 1 if i < 3]\nreturn x", "d = [[j for j in range(i) if j > 0] for i in range(4) if i > 1 if i < 3]\nreturn x"),
+    ("comprehension", "ifs", "d = [i for i in range(5) if x > 1 if b]\nreturn x", "d = [i for i in range(5) if x > 1]\nreturn x"),
+    ("ListComp", "generators", "d = [i + j for i in range(3) for j in range(2)]\nreturn x", "d = [i + j for i in range(3)  for j in range(3)]\nreturn x"),
     # modifier items (`with <modifier call>:`): the call is consumed by CFGBuilder._handle_withitem
     ("Call", "keywords", "q0 = qubit()\nc0 = qubit()\nc1 = qubit()\nwith control(c0, extra=1):\n    h(q0)\ndiscard(q0)\ndiscard(c0)\ndiscard(c1)\nreturn x", "q0 = qubit()\nc0 = qubit()\nc1 = qubit()\nwith control(c0):\n    h(q0)\ndiscard(q0)\ndiscard(c0)\ndiscard(c1)\nreturn x"),
     ("Call", "keywords", "q0 = qubit()\nc0 = qubit()\nc1 = qubit()\nwith dagger(k=1):\n    h(q0)\ndiscard(q0)\ndiscard(c0)\ndiscard(c1)\nreturn x", "q0 = qubit()\nc0 = qubit()\nc1 = qubit()\nwith dagger():\n    h(q0)\ndiscard(q0)\ndiscard(c0)\ndiscard(c1)\nreturn x"),
@@ -600,7 +623,7 @@ def tie_expr_contexts(ctx):
     base_ok = {}
     for k, f, w, b in EXPR_CLAUSES:
         if ctx.quick and (k, f) != ("Call", "keywords"):
-            cs = ["list-filter"] + rng.sample(names, 2)
+            cs = ["list-filter", "list-filter-2nd", "nested-comp-filter"] + rng.sample(names, 2)
         else:
             cs = names
         for c in dict.fromkeys(cs):
